@@ -18,6 +18,7 @@ const rule = "one case = one generated message with all FETCH commands issued on
 
 func TestMain(m *testing.M) {
 	ev.Main(m, "C13", "exploration", rule,
+		"in about one case of eight the message files are removed from the on-disk store between two FETCH commands (cache loss, as in tests/fetch_test.go TestFetchWhenFileDeletedFromCache): the literal is downloaded from the connector again and written back, and every later answer must still be byte-exact",
 		"partial offsets and lengths stay inside RFC 3501's 32-bit number (nz-number for the length); larger numbers are outside the grammar and are only checked for crashes (TestC13PartialBeyondGrammar)",
 		"BODY[p.HEADER] / BODY[p.TEXT] / BODY[p.HEADER.FIELDS] on a part that is not message/rfc822 are undefined in RFC 3501; they are judged by what gluon's own tests document (tests/fetch_test.go: the part's MIME header / body)",
 		"messages are generated with CRLF line endings; a drawn share is converted to bare LF as a whole (non-conformant input that gluon accepts); the server's id line always ends in CRLF",
